@@ -36,8 +36,11 @@ SCENARIOS = {
                        [RPC("", True), RPC("m1"), {"op": "close"}]),
     # a rejected update (failing dial) next to calls
     "rejected": ([NEW([ME("m1", "a", "b")], "m1")], [RPC(""), UPD([ME("m1", "c", "a")], "m1", 1), RPC("zz")], [RPC(""), {"op": "close"}]),
+    # the update drops a pool whose connection the application already closed (its Close fails) while calls are being routed
+    "drop-severed": ([NEW([ME("m1", "a", "b")], "m1"), {"op": "sever", "e": "a"}], [RPC(""), UPD([ME("m1", "b", "c")], "m1"), RPC("m1", True)],
+                     [RPC(""), {"op": "close"}]),
 }
-PROP_SCENARIOS = {"C15": ["swap-endpoint", "rename-default"], "C16": ["swap-endpoint", "rename-default", "rejected"]}
+PROP_SCENARIOS = {"C15": ["swap-endpoint", "rename-default"], "C16": ["swap-endpoint", "rename-default", "rejected", "drop-severed"]}
 
 
 def script_of(name, sched, sid):
